@@ -3,6 +3,8 @@ pub mod c01;
 pub mod c02;
 pub mod c04;
 pub mod c05;
+pub mod c06;
+pub mod c07;
 pub mod c12;
 pub mod c16;
 pub mod tools;
@@ -13,6 +15,8 @@ pub fn lookup(id: &str) -> Option<&'static dyn Prop> {
         "C02" => &c02::C02,
         "C04" => &c04::C04,
         "C05" => &c05::C05,
+        "C06" => &c06::C06,
+        "C07" => &c07::C07,
         "C12" => &c12::C12,
         "C16" => &c16::C16,
         _ => return None,
